@@ -19,7 +19,8 @@ def draw_request(rng, mesh, thick, fixed=None):
     req["pos_unit"] = str(rng.choice(LENGTH_UNITS))
     req["box"] = float(rng.choice([1.0, 2.0, 7.5, 1.0e3]))
     # origin
-    om = fixed.get("origin_mode") or str(rng.choice(["centre", "random", "random", "face", "corner", "outside", "cell-centre"]))
+    om = fixed.get("origin_mode") or str(rng.choice(["centre", "random", "random", "face", "corner", "outside", "cell-centre",
+                                                        "omitted"]))
     j = int(rng.integers(0, len(mesh["pos"])))
     c, s = mesh["pos"][j], mesh["size"][j]
     if om == "centre":
@@ -33,6 +34,8 @@ def draw_request(rng, mesh, thick, fixed=None):
         o = c + 0.5 * s * rng.choice([-1.0, 1.0], size=ndim)
     elif om == "cell-centre":
         o = c.copy()
+    elif om == "omitted":
+        o = np.zeros(ndim)          # osyris' default origin: the zero vector (a corner of the unit box)
     else:
         o = rng.uniform(0.2, 0.8, size=ndim)
         o[int(rng.integers(0, ndim))] = float(rng.choice([-0.2, 1.15]))
@@ -84,6 +87,8 @@ def draw_request(rng, mesh, thick, fixed=None):
         req["resolution"] = int(rng.integers(4, 40))
     else:
         req["resolution"] = int(rng.choice([24, 48, 65, 128, 257])) if len(mesh["pos"]) < 600 else 32
+    if not thick and "resolution" not in fixed and len(mesh["pos"]) < 400 and rng.random() < 0.25:
+        req["resolution"] = None        # osyris' default resolution (256 x 256)
     req["render"] = bool(rng.random() < 0.2)
     req["layers"] = fixed.get("layers") or [["tag"], ["tag", "temp"], ["temp", "tag"], ["tag", "velocity:vec"],
                                             ["velocity:vec", "temp", "tag"], ["itag"], ["ilevel", "itag"],
@@ -148,6 +153,8 @@ def run_map(osy, rng, res, mesh, req, thick, known_note=""):
     origin = osy.Vector(*[float(x * f_o) for x in origin_sp], unit=req["origin_unit"])
     render = bool(req.get("render")) and not thick and all(":" not in sp for sp in req["layers"])
     kw = {"direction": req["direction"], "origin": origin, "plot": render}
+    if req["origin_mode"] == "omitted":
+        del kw["origin"]
     if isinstance(req["direction"], list):
         kw["direction"] = osy.Vector(*req["direction"])
     if req["resolution"] is not None:
@@ -197,8 +204,8 @@ def run_map(osy, rng, res, mesh, req, thick, known_note=""):
     xs, ys = x * f_back, y * f_back
     nx, ny = len(xs), len(ys)
     res.count("pixel-grid")
-    rx = req["resolution"] if isinstance(req["resolution"], int) else req["resolution"].get("x", 256)
-    ry = req["resolution"] if isinstance(req["resolution"], int) else req["resolution"].get("y", 256)
+    rx = req["resolution"] if isinstance(req["resolution"], int) else (req["resolution"] or {}).get("x", 256)
+    ry = req["resolution"] if isinstance(req["resolution"], int) else (req["resolution"] or {}).get("y", 256)
     if (nx, ny) != (rx, ry):
         res.violate("resolution-ignored", f"{what}: returned {nx}x{ny} pixel centres, requested {rx}x{ry}")
         return info
